@@ -23,7 +23,10 @@ type C17Case struct {
 	DeafRead bool `json:"deaf_read,omitempty"`
 	// ErrKind: the error value the failing transport returns (kit.FaultErrKinds)
 	ErrKind string `json:"err_kind,omitempty"`
-	Mode    string `json:"mode"` // spoof | badpeer | reattach | cancel
+	Mode    string `json:"mode"` // spoof | badpeer | reattach | cancel | attach-race | odd-route
+	// odd-route: an envelope with the sender's true source but unusual routing fields
+	OddDest string `json:"odd_dest,omitempty"` // own (the proxy's own name) | empty | self | long | c1
+	OddNext string `json:"odd_next,omitempty"` // "" (absent) | empty-list | empty-name | own | self | c1
 	// spoof
 	Spoof string `json:"spoof"` // other-source | empty-source | no-header | unattached-source
 	// badpeer
@@ -38,7 +41,7 @@ type C17Case struct {
 }
 
 func genC17(t *rapid.T) C17Case {
-	c := C17Case{Mode: rapid.SampledFrom([]string{"spoof", "badpeer", "reattach", "cancel", "attach-race"}).Draw(t, "mode"), Ser: rapid.Bool().Draw(t, "ser")}
+	c := C17Case{Mode: rapid.SampledFrom([]string{"spoof", "badpeer", "reattach", "cancel", "attach-race", "odd-route"}).Draw(t, "mode"), Ser: rapid.Bool().Draw(t, "ser")}
 	c.ErrKind = rapid.SampledFrom(kit.FaultErrKinds).Draw(t, "err_kind")
 	c.DeafRead = rapid.Bool().Draw(t, "deaf_read")
 	c.BadDialled = rapid.Bool().Draw(t, "bad_dialled")
@@ -49,6 +52,10 @@ func genC17(t *rapid.T) C17Case {
 	c.FailKind = rapid.SampledFrom([]string{"read", "write"}).Draw(t, "failkind")
 	c.Rounds = rapid.IntRange(1, 6).Draw(t, "rounds")
 	c.CancelAt = rapid.IntRange(0, 8).Draw(t, "cancel_at")
+	if c.Mode == "odd-route" {
+		c.OddDest = rapid.SampledFrom([]string{"own", "empty", "self", "long", "c1"}).Draw(t, "odd_dest")
+		c.OddNext = rapid.SampledFrom([]string{"", "empty-list", "empty-name", "own", "self", "c1"}).Draw(t, "odd_next")
+	}
 	return c
 }
 
@@ -147,6 +154,56 @@ func execC17(t *testing.T, c C17Case) (v Verdict) {
 			}
 			if got := c0.A.ReadAvailable(); len(got) != 0 {
 				v.failf("spoof(%s): envelope bounced back to the sender", c.Spoof)
+			}
+			honest("after")
+		case "odd-route":
+			// Source is the sender's true name; everything else about the route is the sender's to fill in. None of it may
+			// take the proxy down or disturb the others. (An empty, non-nil return route is what an in-process,
+			// by-reference transport delivers when the previous hop has just consumed the last element of the route.)
+			honest("before")
+			odd := pxEnv("c0", "c1", 950)
+			switch c.OddDest {
+			case "own":
+				odd.Header.Destination = "px"
+			case "empty":
+				odd.Header.Destination = ""
+			case "self":
+				odd.Header.Destination = "c0"
+			case "long":
+				odd.Header.Destination = strings.Repeat("n", 70000)
+			}
+			switch c.OddNext {
+			case "empty-list":
+				odd.Header.ProxyNext = []string{}
+			case "empty-name":
+				odd.Header.ProxyNext = []string{""}
+			case "own":
+				odd.Header.ProxyNext = []string{"px"}
+			case "self":
+				odd.Header.ProxyNext = []string{"c0"}
+			case "c1":
+				odd.Header.ProxyNext = []string{"c1"}
+			}
+			_ = c0.A.Write(bg, odd)
+			kit.Settle()
+			// where it goes: the last element of the return route if there is one, else the destination
+			hop := odd.Header.Destination
+			switch c.OddNext {
+			case "empty-name":
+				hop = ""
+			case "own":
+				hop = "px"
+			case "self":
+				hop = "c0"
+			case "c1":
+				hop = "c1"
+			}
+			at1, at0 := c1.A.ReadAvailable(), c0.A.ReadAvailable()
+			if n := len(at1); (hop == "c1") != (n == 1) {
+				v.failf("odd-route(dest=%s,next=%s): c1 received %d envelopes, the route leads to %q", c.OddDest, c.OddNext, n, hop)
+			}
+			if n := len(at0); (hop == "c0") != (n == 1) {
+				v.failf("odd-route(dest=%s,next=%s): c0 received %d envelopes, the route leads to %q", c.OddDest, c.OddNext, n, hop)
 			}
 			honest("after")
 		case "badpeer":
@@ -385,6 +442,8 @@ func execC17(t *testing.T, c C17Case) (v Verdict) {
 		}
 	case "badpeer":
 		label += "/" + c.Role
+	case "odd-route":
+		labels = append(labels, "odd.dest="+c.OddDest, "odd.next="+c.OddNext)
 	case "reattach":
 		label += fmt.Sprintf("/old_first=%v/%s", c.OldFailsFirst, c.FailKind)
 	}
